@@ -2,10 +2,10 @@ use super::expr;
 use super::objcode::{CallbackCode, ObjectCodeMap, PropertyCode, PropertyCodeKind};
 use crate::diagnostic::{Diagnostic, Diagnostics};
 use crate::objtree::{ObjectNode, ObjectTree};
-use crate::opcode::{BuiltinFunctionKind, ConsoleLogLevel};
+use crate::opcode::{BinaryArithOp, BinaryOp, BuiltinFunctionKind, ConsoleLogLevel};
 use crate::qtname::{self, FileNameRules, UniqueNameGenerator};
 use crate::tir;
-use crate::typedexpr::DescribeType as _;
+use crate::typedexpr::{DescribeType as _, TypeDesc};
 use crate::typemap::{Class, Method, TypeKind, TypeSpace};
 use itertools::Itertools as _;
 use std::collections::{HashMap, HashSet};
@@ -864,6 +864,11 @@ impl CxxCodeBodyTranslator {
         match rv {
             Rvalue::Copy(a) => self.format_operand(a),
             Rvalue::UnaryOp(op, a) => format!("{}{}", op, self.format_operand(a)),
+            Rvalue::BinaryOp(op, l, r) if is_float_rem(op, l) => format!(
+                "std::fmod({}, {})", // operator% isn't defined for double
+                self.format_operand(l),
+                self.format_operand(r)
+            ),
             Rvalue::BinaryOp(op, l, r) => format!(
                 "{} {} {}",
                 self.format_operand(l),
@@ -1007,6 +1012,10 @@ fn format_string_literal(s: &str) -> String {
     literal
 }
 
+fn is_float_rem(op: &BinaryOp, left: &tir::Operand) -> bool {
+    *op == BinaryOp::Arith(BinaryArithOp::Rem) && left.type_desc() == TypeDesc::DOUBLE
+}
+
 fn member_access_op(a: &tir::Operand) -> &'static str {
     if a.type_desc().is_pointer() {
         "->"
@@ -1116,6 +1125,9 @@ fn collect_system_includes(object_code_maps: &[ObjectCodeMap]) -> HashSet<&'stat
                             }
                             BuiltinFunctionKind::Tr => {}
                         },
+                        Rvalue::BinaryOp(op, l, _) if is_float_rem(op, l) => {
+                            includes.insert("cmath");
+                        }
                         _ => {}
                     }
                 }
